@@ -23,6 +23,10 @@ pub enum Action {
     MergeOwn,
     ClearPending,
     Restart,
+    /// process_welcome of the i-th published welcome rumor
+    Welcome(usize),
+    Accept(usize),
+    Decline(usize),
 }
 
 impl Action {
@@ -32,6 +36,9 @@ impl Action {
             Action::MergeOwn => "merge_own".into(),
             Action::ClearPending => "clear_pending".into(),
             Action::Restart => "restart".into(),
+            Action::Welcome(i) => format!("process_welcome(w{i}:{})", w.welcomes[*i].2),
+            Action::Accept(i) => format!("accept_welcome(w{i}:{})", w.welcomes[*i].2),
+            Action::Decline(i) => format!("decline_welcome(w{i}:{})", w.welcomes[*i].2),
         }
     }
 }
@@ -50,6 +57,12 @@ pub struct StateRec {
     pub key_json: Option<String>,
     /// the pending commit (if any) was produced during exploration (an auto-commit nobody published)
     pub auto_pending: bool,
+    /// C03 probe: did create_message succeed in this state (only probed for inactive groups)
+    pub send_ok: Option<bool>,
+    /// number of messages stored in groups other than the explored one
+    pub foreign_msgs: usize,
+    /// state of the stored welcome for every published invitation ("" = not stored)
+    pub welcome_states: Vec<String>,
 }
 
 pub struct Edge {
@@ -82,6 +95,10 @@ pub struct ExploreOpts {
     pub keep_key_json: bool,
     /// restrict deliverable pool events (indices); None = all
     pub pool_filter: Option<Vec<usize>>,
+    /// offer process (and with `welcome_consent` accept/decline) of published welcomes
+    pub with_welcomes: bool,
+    /// 0 = never, 1 = only while the stored welcome is pending, 2 = in every state
+    pub welcome_consent: u8,
 }
 
 fn snapshot_state(c: &Client, w: &World, pool_ids: &[nostr::EventId], welcome_ids: &[nostr::EventId], depth: usize, parent: Option<(usize, Action)>, keep: bool) -> StateRec {
@@ -89,11 +106,21 @@ fn snapshot_state(c: &Client, w: &World, pool_ids: &[nostr::EventId], welcome_id
     let key_s = key.to_string();
     let obs_s = key["obs"].to_string();
     let g = c.group_obs(&w.gid);
+    let send_ok = match &g {
+        Some(go) if go.record_state == "inactive" => {
+            let f = c.fork();
+            let r = rumor(&f.keys, "probe-after-eviction", now());
+            Some(with_mdk!(f, m => m.create_message(&w.gid, r)).is_ok())
+        }
+        _ => None,
+    };
+    let foreign_msgs: usize = c.groups().iter().filter(|x| x.mls_group_id != w.gid).map(|x| c.group_obs(&x.mls_group_id).map(|o| o.messages.len()).unwrap_or(0)).sum();
+    let welcome_states: Vec<String> = w.welcomes.iter().map(|(_, r, _)| r.id.and_then(|id| with_mdk!(c, m => m.get_welcome(&id)).ok().flatten()).map(|x| x.state.as_str().to_string()).unwrap_or_default()).collect();
     let dedup: Vec<String> = pool_ids.iter().map(|id| c.dedup(id).map(|p| p.state.as_str().to_string()).unwrap_or_default()).collect();
     let snap_queue: Vec<(u64, String, u64)> = with_mdk!(c, m => m.verif_snapshot_queue(&w.gid)).into_iter().map(|e| (e.epoch, e.applied_commit_id.to_hex(), e.applied_commit_ts)).collect();
     let mut snap_stored: Vec<String> = with_mdk!(c, m => { use mdk_storage_traits::MdkStorageProvider; use openmls::prelude::OpenMlsProvider; m.provider.storage().list_group_snapshots(&w.gid) }).unwrap_or_default().into_iter().map(|(n, _)| n).collect();
     snap_stored.sort();
-    StateRec { key_hash: h64(&key_s), obs_hash: h64(&obs_s), g, dedup, snap_queue, snap_stored, depth, parent, key_json: if keep { Some(key_s) } else { None }, auto_pending: false }
+    StateRec { key_hash: h64(&key_s), obs_hash: h64(&obs_s), g, dedup, snap_queue, snap_stored, depth, parent, key_json: if keep { Some(key_s) } else { None }, auto_pending: false, send_ok, foreign_msgs, welcome_states }
 }
 
 pub fn member_epoch(s: &StateRec) -> u64 {
@@ -115,7 +142,6 @@ pub fn enabled(w: &World, s: &StateRec, opts: &ExploreOpts, member: &str) -> Vec
         }
         v.push(Action::Deliver(i));
     }
-    let _ = member;
     if opts.with_local_ops && s.g.as_ref().map(|g| g.pending_commit).unwrap_or(false) {
         // a published commit may be applied right away ("merge immediately after publishing");
         // a commit produced while exploring was never published, so the only valid local step is to drop it
@@ -127,6 +153,25 @@ pub fn enabled(w: &World, s: &StateRec, opts: &ExploreOpts, member: &str) -> Vec
     }
     if opts.with_restart {
         v.push(Action::Restart);
+    }
+    if opts.with_welcomes {
+        // every invitation addressed to this client, plus one addressed to somebody else
+        let mut foreign_done = false;
+        for i in 0..w.welcomes.len() {
+            let own = w.welcomes[i].2 == member;
+            if !own {
+                if foreign_done {
+                    continue;
+                }
+                foreign_done = true;
+            }
+            v.push(Action::Welcome(i));
+            let pending = s.welcome_states.get(i).map(|x| x == "pending").unwrap_or(false);
+            if own && (opts.welcome_consent == 2 || (opts.welcome_consent == 1 && pending)) {
+                v.push(Action::Accept(i));
+                v.push(Action::Decline(i));
+            }
+        }
     }
     v
 }
@@ -202,6 +247,41 @@ pub fn step_on(w: &World, f: Client, a: Action) -> StepOut {
             }
         }
         Action::Restart => "Ok".into(),
+        Action::Welcome(i) => {
+            let (wid, rumor, _) = &w.welcomes[i];
+            match std::panic::catch_unwind(std::panic::AssertUnwindSafe(|| with_mdk!(f, m => m.process_welcome(wid, rumor)))) {
+                Ok(Ok(_)) => "Welcome".into(),
+                Ok(Err(e)) => {
+                    logcap::note(format!("{e:?} {e}"));
+                    format!("Err({})", err_variant(&e))
+                }
+                Err(_) => {
+                    panicked = true;
+                    "PANIC".into()
+                }
+            }
+        }
+        Action::Accept(i) | Action::Decline(i) => {
+            let (_, rumor, _) = &w.welcomes[i];
+            let stored = rumor.id.and_then(|id| with_mdk!(f, m => m.get_welcome(&id)).ok().flatten());
+            match stored {
+                None => "NoStoredWelcome".into(),
+                Some(wl) => {
+                    let accept = matches!(a, Action::Accept(_));
+                    match std::panic::catch_unwind(std::panic::AssertUnwindSafe(|| with_mdk!(f, m => if accept { m.accept_welcome(&wl) } else { m.decline_welcome(&wl) }))) {
+                        Ok(Ok(())) => "Ok".into(),
+                        Ok(Err(e)) => {
+                            logcap::note(format!("{e:?} {e}"));
+                            format!("Err({})", err_variant(&e))
+                        }
+                        Err(_) => {
+                            panicked = true;
+                            "PANIC".into()
+                        }
+                    }
+                }
+            }
+        }
     };
     let recs = logcap::end();
     if std::env::var("VERIF_TRACE_LOGS").is_ok() {
